@@ -26,6 +26,9 @@ pub const XL_MAX_K: u32 = 1300;
 const STREAM_XL: u64 = 777;
 pub const XXL_MAX_K: u32 = 9000;
 const STREAM_XXL: u64 = 7777;
+/// medium band 121..180 for all four builds (the checked builds cost seconds per scenario here)
+pub const MEDIUM_MAX_K: u32 = 180;
+const STREAM_MEDIUM: u64 = 70;
 
 pub fn flavour_name() -> &'static str {
     match (cfg!(debug_assertions), cfg!(feature = "rq-std")) {
@@ -483,6 +486,26 @@ pub fn run(ctx: &Ctx) -> i32 {
             }
         }
     }
+    // medium band (121..180 symbols, one block) in all four builds: a few scenarios only
+    let n_medium = ctx.runs(12, 300);
+    let handles_m: Vec<(String, String, std::thread::JoinHandle<Result<BTreeMap<u64, (String, String, String)>, String>>)> = others
+        .iter()
+        .map(|(name, bin)| {
+            let (b, seed) = (bin.clone(), ctx.seed);
+            (name.to_string(), bin.clone(), std::thread::spawn(move || remote_digests(&b, seed, STREAM_MEDIUM, 0, n_medium, MEDIUM_MAX_K, wshare)))
+        })
+        .collect();
+    let (acc_medium, fail_medium) = local_stream(ctx, STREAM_MEDIUM, n_medium, MEDIUM_MAX_K, wshare);
+    let mut remote_medium: Vec<(String, String, BTreeMap<u64, (String, String, String)>)> = vec![];
+    for (name, bin, h) in handles_m {
+        match h.join().unwrap() {
+            Ok(m) => remote_medium.push((name, bin, m)),
+            Err(e) => {
+                eprintln!("HARNESS-ERROR: {e}");
+                return 2;
+            }
+        }
+    }
     // large-K stream: release flavours only
     let nostd_bin = others.iter().find(|(n, _)| *n == "release-nostd").map(|(_, b)| b.clone()).unwrap();
     let hl = {
@@ -529,7 +552,7 @@ pub fn run(ctx: &Ctx) -> i32 {
     };
 
     // ---- knob divergence inside this binary
-    for (stream, fail) in [(STREAM_SMALL, fail_small), (STREAM_LARGE, fail_large), (STREAM_XL, fail_xl), (STREAM_XXL, fail_xxl)] {
+    for (stream, fail) in [(STREAM_SMALL, fail_small), (STREAM_MEDIUM, fail_medium), (STREAM_LARGE, fail_large), (STREAM_XL, fail_xl), (STREAM_XXL, fail_xxl)] {
         if let Some((run, d)) = fail {
             if violations.is_empty() {
                 violations.push(report_divergence(
@@ -548,7 +571,7 @@ pub fn run(ctx: &Ctx) -> i32 {
             }
         }
     }
-    comparisons += acc_small.runs + acc_large.runs + acc_xl.runs + acc_xxl.runs;
+    comparisons += acc_small.runs + acc_medium.runs + acc_large.runs + acc_xl.runs + acc_xxl.runs;
 
     // ---- cross-build comparison, and knob divergence inside the other binaries
     let mut check_remote = |name: &str, bin: &str, m: &BTreeMap<u64, (String, String, String)>, local: &BTreeMap<u64, String>, stream: u64, max_k: u32, violations: &mut Vec<Violation>| {
@@ -571,6 +594,9 @@ pub fn run(ctx: &Ctx) -> i32 {
     };
     for (name, bin, m) in &remote {
         check_remote(name, bin, m, &acc_small.digests, STREAM_SMALL, SMALL_MAX_K, &mut violations);
+    }
+    for (name, bin, m) in &remote_medium {
+        check_remote(name, bin, m, &acc_medium.digests, STREAM_MEDIUM, MEDIUM_MAX_K, &mut violations);
     }
     check_remote("release-nostd", &nostd_bin, &remote_large, &acc_large.digests, STREAM_LARGE, LARGE_MAX_K, &mut violations);
     check_remote("release-nostd", &nostd_bin, &remote_xl, &acc_xl.digests, STREAM_XL, XL_MAX_K, &mut violations);
@@ -611,10 +637,12 @@ pub fn run(ctx: &Ctx) -> i32 {
     }
 
     let mut faults = acc_small.faults.clone();
+    faults.merge(&acc_medium.faults);
     faults.merge(&acc_large.faults);
     faults.merge(&acc_xl.faults);
     faults.merge(&acc_xxl.faults);
     let mut kernels = acc_small.kernels.clone();
+    kernels.merge(&acc_medium.kernels);
     kernels.merge(&acc_large.kernels);
     kernels.merge(&acc_xl.kernels);
     kernels.merge(&acc_xxl.kernels);
@@ -622,6 +650,7 @@ pub fn run(ctx: &Ctx) -> i32 {
         kernels.touch(k);
     }
     let mut kv = acc_small.knob_vectors.clone();
+    kv.merge(acc_medium.knob_vectors.clone());
     kv.merge(acc_large.knob_vectors.clone());
     kv.merge(acc_xl.knob_vectors.clone());
     kv.merge(acc_xxl.knob_vectors.clone());
@@ -633,12 +662,13 @@ pub fn run(ctx: &Ctx) -> i32 {
         ctx,
         &Evidence {
             level: "exploration",
-            evaluations: (acc_small.runs * 8) + (acc_large.runs * 4) + (acc_xl.runs * 4) + (acc_xxl.runs * 4) + hazards_run.len() as u64 * 4,
+            evaluations: (acc_small.runs * 8) + (acc_medium.runs * 8) + (acc_large.runs * 4) + (acc_xl.runs * 4) + (acc_xxl.runs * 4) + hazards_run.len() as u64 * 4,
             distinct_nontrivial: kv.len() as u64,
-            rule: "one evaluation = one execution of a seeded transfer scenario in one environment (build flavour x knob vector); every scenario of the K<=120 stream runs in 4 builds x 2 knob vectors, every scenario of the K<=400 stream and of the extra-large streams (one block of 700..1300 and of 3000..9000 symbols) in the 2 release builds x 2 knob vectors; transcripts (OTI bytes, every packet emitted, every receiver outcome after every delivery) must be identical. distinct_nontrivial = distinct knob vectors (kernel level, per-replica construction/plan source/encoder threshold, per-receiver decoder threshold) exercised in this binary; each is combined with 4 (resp. 2) build flavours".into(),
+            rule: "one evaluation = one execution of a seeded transfer scenario in one environment (build flavour x knob vector); every scenario of the K<=120 stream and of the medium stream (one block of 121..180 symbols) runs in 4 builds x 2 knob vectors, every scenario of the K<=400 stream and of the extra-large streams (one block of 700..1300 and of 3000..9000 symbols) in the 2 release builds x 2 knob vectors; transcripts (OTI bytes, every packet emitted, every receiver outcome after every delivery) must be identical. distinct_nontrivial = distinct knob vectors (kernel level, per-replica construction/plan source/encoder threshold, per-receiver decoder threshold) exercised in this binary; each is combined with 4 (resp. 2) build flavours".into(),
             samples,
             extra: json!({
                 "scenarios_small_stream": acc_small.runs,
+                "scenarios_medium_stream_121_to_180_symbols_all_builds": acc_medium.runs,
                 "scenarios_large_stream": acc_large.runs,
                 "scenarios_xl_stream": acc_xl.runs,
                 "scenarios_xxl_stream_3000_to_9000_symbols": acc_xxl.runs,
@@ -655,7 +685,7 @@ pub fn run(ctx: &Ctx) -> i32 {
             }),
             assumptions: vec![
                 "NEON / arm kernels cannot run on this x86-64 host".into(),
-                "checked builds are restricted to K <= 120 per block except for the seeded hazards (the debug-only solver verification is O(L^3) per step)".into(),
+                "checked builds are restricted to K <= 180 per block (K <= 120 for the bulk of the scenarios) except for the seeded hazards (the debug-only solver verification is O(L^3) per step)".into(),
             ],
             wall_s: wall,
             violations: violations.len() as u64,
